@@ -135,7 +135,7 @@ theorem C06_route (ds : Dataset) (hwf : WFData ds) (p : Params) (hmw : 0 ≤ p.m
   have hsub := connSetOf_rev_sub ds (ds.scenarioOf p)
   have hm : ArrMono (ds.connSetOf (ds.scenarioOf p)).rev :=
     fun x hx y hy => conns_arrMono hwf.toWFSchedule x (hsub x hx) y (hsub y hy)
-  obtain ⟨depT, arrT, bd, j, rfl, hJ⟩ := calculateSingleWith_emits _ _ p _ _ (connSetOf_sorted ds _) hm hmw
+  obtain ⟨depT, arrT, bd, j, rfl, hJ, _⟩ := calculateSingleWith_emits _ _ p _ _ (connSetOf_sorted ds _) hm hmw
     (fun depT arrT => cleanupPreserves (timeWF_dataset hwf p hmw hmt _ _ _ depT arrT) (sliceOK_dataset hwf p _ _ _ depT arrT)) h
   obtain ⟨acc, legs, egr, rfl, hacc, hegr, hne, hok, _, _⟩ := hJ
   refine ⟨legs, ?_⟩
